@@ -10,13 +10,14 @@ import itertools
 import numpy as np
 
 from vf.alpha import build, meshes
+from vf.core import pool
 from vf.core.state import digest
 
 ID = "C17"
 RULE = (
     "grids (sizes 3..8 mixed, row width exact and padded) x face order (all F! for F<=5 quick / F<=6 thorough, else "
     "transpositions+reversal) x node data {identity, generic, int, bool, every unit impulse} x leading dims {(), (2), (2,3), (n_node), (n_node+3)} x position of the node dimension {last, first, middle} "
-    "x {mean,min,max,median,std,var,sum,prod,all,any} x {face, edge}; plus every unsupported (source kind, destination) pair. "
+    "x {mean,min,max,median,std,var,sum,prod,all,any} x {face, edge}; plus every unsupported (source kind, destination) pair; plus call histories: every sequence of 2 (quick) / 3 (thorough) calls over 14 (reduction, keyword arguments) variants incl. ddof=1 and dtype=float32, each judged with its own arguments. "
     "non-trivial = grid with >=2 face sizes (partitioning and padding matter); distinct = (mesh, face order, data, lead, reduction, destination)"
 )
 ASSUMPTIONS = [
@@ -44,7 +45,66 @@ def cases(tier):
         for i0 in range(0, len(orders), step):
             out.append({"kind": "agg", "mesh": name, "orders": [i0, min(len(orders), i0 + step)], "full": full})
         out.append({"kind": "unsupported", "mesh": name})
+    # call histories: every ordered pair (and, thorough, triple) of aggregation calls incl. non-default keyword arguments
+    for name in (["mixedpatch"] if tier == "quick" else ["mixedpatch", "cubesplit", "sizes38"]):
+        for first in range(len(_calls())):
+            out.append({"kind": "calls", "mesh": name, "first": first, "depth": 2 if tier == "quick" else 3})
     return out
+
+
+def _calls():
+    """(reduction, keyword arguments) menu for the call-history search"""
+    out = [(a, {}) for a in AGGS]
+    out += [("std", {"ddof": 1}), ("var", {"ddof": 1}), ("sum", {"dtype": "float32"}), ("mean", {"dtype": "float32"})]
+    return out
+
+
+def _run_calls(case, res):
+    """sequence of aggregation calls on one array; every call's result must be the per-element reduction with *its own* keyword arguments"""
+    import itertools
+
+    m = meshes.get(case["mesh"])
+    C = _calls()
+    mixed = len({len(f) for f in m.faces}) > 1
+    data = build.lead_expand(dict(build.data_alphabet(m.n_node, ("generic",)))["generic"], (2,))
+    for rest in itertools.product(range(len(C)), repeat=case["depth"] - 1):
+        seq = (case["first"],) + rest
+        if "only" in case and list(seq) != case["only"]["seq"]:
+            continue
+        for dest in ("face", "edge"):
+            foc = {"seq": list(seq), "dest": dest}
+            if "only" in case and foc != case["only"]:
+                continue
+            focus = dict(case, only=foc)
+            pool.fresh()
+            g = build.grid(m)
+            da = build.uxda(g, data.copy(), "n_node", (2,), name="fld")
+            elems = m.faces if dest == "face" else [tuple(r) for r in np.asarray(g.edge_node_connectivity.values).tolist()]
+            res["evaluations"] += 1
+            key = digest((case["mesh"], seq, dest))
+            res["states"].append(key)
+            if mixed and len({C[i] and (C[i][0], tuple(sorted(C[i][1].items()))) for i in seq}) > 1:
+                res["nontrivial"].append(key)
+            for step, ci in enumerate(seq):
+                agg, kw = C[ci]
+                res["transitions"] += 1
+                try:
+                    out = getattr(da, "topological_" + agg)(destination=dest, **kw)
+                except Exception as e:
+                    res["violations"].append({"oracle": "calls", "sig": "c17:calls:raises:%s(%s):%s" % (agg, ",".join(sorted(kw)), type(e).__name__), "msg": "call %d of %s raised %r" % (step, [C[i] for i in seq], e), "focus": focus})
+                    break
+                ref = np.empty(data.shape[:-1] + (len(elems),), dtype=float)
+                for i, nodes in enumerate(elems):
+                    ref[..., i] = NPF[agg](data[..., list(nodes)], axis=-1, **kw)
+                v = np.asarray(out.values, dtype=float)
+                tol = (1e-5 if kw.get("dtype") == "float32" else 1e-12) * max(1.0, float(np.max(np.abs(ref))))
+                if v.shape != ref.shape or not np.all(np.abs(v - ref) <= tol):
+                    res["violations"].append({"oracle": "calls", "sig": "c17:calls:value:%s(%s)%s" % (agg, ",".join(sorted(kw)), ":after-other-call" if step else ""), "msg": "grid %s, calls %s: result of call %d (%s %s -> %s) is not the per-element reduction with its own arguments (max deviation %s)" % (case["mesh"], [C[i] for i in seq], step, agg, kw, dest, float(np.max(np.abs(v - ref))) if v.shape == ref.shape else "shape"), "focus": focus})
+                    break
+            res["outcomes"].append(digest((seq[-1], dest)))
+    res["axes"] = {"call_history_depth": {str(case["depth"]): res["evaluations"]}}
+    res["sample"] = {"mesh": case["mesh"], "kind": "calls", "first": list(map(str, C[case["first"]]))}
+    return res
 
 
 def selftest_case(tier):
@@ -73,6 +133,8 @@ def run_case(case):
     base = meshes.get(case["mesh"])
     if case["kind"] == "unsupported":
         return _unsupported(case, base, res)
+    if case["kind"] == "calls":
+        return _run_calls(case, res)
     orders = list(meshes.face_orders(base.n_face, full_upto=case["full"]))
     i0, i1 = case["orders"]
     leads = [(), (2,), (2, 3)] + ([(1, 2, 2)] if case["full"] > 5 else [])
